@@ -58,6 +58,8 @@ def s_AugAssign(I, st, env):
     else:
         raise Unsupported("augassign target")
     rhs = I.eval(st.value, env)
+    if isinstance(rhs, Obj) and rhs.cls == "generator":
+        rhs = rhs.fields["trace"]
     # list += list mutates in place in Python; our lists are values unless aliased, so rebinding is
     # equivalent as long as the list does not escape (PS3) -- PyList is extended in place to keep aliasing.
     if isinstance(cur, PyList) and isinstance(st.op, ast.Add):
@@ -72,6 +74,7 @@ def s_AugAssign(I, st, env):
                 cur.items.extend(list_get(I.ctx, rhs, i) for i in range(rhs.n))
                 return
             new = I.binop(st.op, I.to_slist(cur, rhs.ety), rhs, st)
+            new.immutable = False
             _store(I, t, new, env)
             return
     new = I.binop(st.op, cur, rhs, st)
